@@ -218,7 +218,12 @@ def prepare(ctx):
     extract_meta(ctx)
     specs = inject_loops.parse_loops_file(os.path.join(vlib.VERIF, "contracts", "meta.loops"))
     for f in (EXT, EXT2):
-        inject_loops.inject(ctx.ext, specs, f, os.path.join(ctx.ext, "inj_" + f), ctx.notes)
+        try:
+            inject_loops.inject(ctx.ext, specs, f, os.path.join(ctx.ext, "inj_" + f), ctx.notes)
+        except inject_loops.InjectError as e:
+            # only the proof obligations that need the injected file become undecided; the bounded read-back
+            # obligations run on the raw extracted file and can still decide the property (same rule as vlib.prepare_injected)
+            ctx.infra_errors.append("loop-contract injection into %s failed: %s" % (f, e))
     gen_literals(ctx)
 
 
